@@ -39,7 +39,7 @@ RULE = (
     "(slot, pre-history) processes; logs must agree entry by entry across all of them"
 )
 LEVEL_TEXT = (
-    "Narrow claim: what simulation decides is process-independence (names, hashes, enumeration content identical in interpreters with different PYTHONHASHSEED and pre-histories, and after save/load through the storage seam). The combinatorial clauses (count = product, uniqueness of names and hashes, pruned enumeration = filtered brute force per element class) are evaluated inside each process as input to that comparison; full-space name/hash digests only in the thorough tier.",
+    "Narrow claim: what simulation decides is process-independence (names, hashes, enumeration content identical in interpreters with different PYTHONHASHSEED and pre-histories, and after save/load through the storage seam). The combinatorial clauses (count = product, uniqueness of names and hashes, pruned enumeration = filtered brute force per element class) are evaluated inside each process as input to that comparison; full-space name/hash digests only in the thorough tier. Histories inside each process: tokenizers are used and re-identified, saved forms are loaded twice, enumerations are interrupted at a seeded validity check and repeated, the module-level memoised enumeration is read before and after the module's sampling helpers; every single-element neighbour of every legacy image is checked; twin interpreters run under python -O and under -W error.",
     "Trusted: blake2b; the quick tier samples full tokenizers (per-element classes are exhaustive in both tiers). Element hashes (not tokenizer hashes) are per-process by construction of the library (DESIGN 6.4) and are only compared within a process.",
 )
 
